@@ -106,6 +106,11 @@ def model(cfg, ctx, group, args):
     exp['or'] = cfg.val(pa | pb)
     exp['xor'] = cfg.val(pa ^ pb)
     exp['not'] = cfg.val(pa ^ cfg.mask)
+    # the by-reference and op-assign forms of the same operators
+    exp['not_ref'] = exp['not']
+    for nm in ('and', 'or', 'xor'):
+        exp[nm + '_refs'] = (exp[nm], exp[nm], exp[nm])
+        exp[nm + '_assign'] = (exp[nm], exp[nm])
     ones = bin(pa).count('1')
     exp['count_ones'] = ones
     exp['count_zeros'] = B - ones
